@@ -891,7 +891,7 @@ func (c *Check) exhaustiveScans(rule string) {
 					nCb++
 					stops := token.NoPos
 					for _, pg := range c.P.PathsOf(g) {
-						if pg.OK() && len(pg.Ret) == 1 && !stripConv(pg.Ret[0]).IsAt("#false") {
+						if pg.OK() && len(pg.Ret) == 1 && !stripConv(pg.Ret[0]).IsAt("#false") && !isFailureTest(stripConv(pg.Ret[0])) {
 							stops = pg.RetPos
 						}
 					}
@@ -902,7 +902,12 @@ func (c *Check) exhaustiveScans(rule string) {
 		}
 	}
 	c.Sites += nCb
-	c.req(nCb >= 4, rule, "scan-callbacks", token.NoPos, fmt.Sprintf("%d callbacks with a stop result handed to module scans", nCb))
+	// (a module that hands out whole lists instead of taking callbacks has none: the first half of the rule covers its loops)
+	if nCb == 0 {
+		c.note(fmt.Sprintf("%s: no callback with a stop result is handed to a module scan", rule))
+	} else {
+		c.ok(rule, "scan-callbacks", token.NoPos, fmt.Sprintf("%d callbacks with a stop result handed to module scans", nCb))
+	}
 }
 
 // funcSig: parameter and result types of a function as one string.
@@ -1289,6 +1294,19 @@ func (c *Check) fractionValidators(rule string) {
 		c.req(lower && upper, rule, g.Name+"#range", g.Body.Pos(),
 			fmt.Sprintf("a value the registered validator of %s accepts lies in %s (established on acceptance: 0 ≤ v: %v, upper bound: %v)", w.fld, rng, lower, upper))
 	}
+}
+
+// isFailureTest: the term says "an error occurred" (err != nil, ¬ok(call)): a callback that stops the scan on the failure of
+// what it does for a record is the loop's own "return err".
+func isFailureTest(t *Term) bool {
+	if t.Op == "!=" && len(t.A) == 2 && t.A[1].IsAt("#nil") {
+		return true
+	}
+	if t.Op != "!" || len(t.A) != 1 {
+		return false
+	}
+	in := stripConv(t.A[0])
+	return in.Op == "ok" || (in.Op == "==" && len(in.A) == 2 && in.A[1].IsAt("#nil"))
 }
 
 // handlerArgsByName (S6): the properties speak of messages, the rules of the keeper functions behind them; the two meet in
